@@ -119,7 +119,7 @@ def causeOf (d : DS) (p : Parsed) : String :=
   let fl := flushedOf d
   if fl.any (fun e => e.key.isEmpty) then "C01-empty-key-accepted"
   else if fl.any (fun e => 65535 < e.key.length) then "C01-long-key-accepted"
-  else if p.blocksErr.isNone && p.entries.length < fl.length then "C01-block-entry-count-overflow"
+  else if (p.hdr.map (·.entryCount)).getD fl.length != fl.length then "C01-block-entry-count-overflow"  -- Σ (len mod 65536) ≠ len
   else if !d.cfg.deleteRemoves then "C01-delete-not-replayed"
   else "C01-replay-mismatch"
 
